@@ -470,6 +470,71 @@ where
                     std::panic::resume_unwind(p);
                 }
             }
+            "par_iter" => {
+                use rayon::prelude::*;
+                let m = self.tabs[t - 1].as_ref().unwrap();
+                let pool = rayon::ThreadPoolBuilder::new().num_threads(ev.j.max(1) as usize).build().unwrap();
+                ev.y = pool.install(|| m.par_iter().map(|x| vec![x.class() as i64, x.id() as i64, 0, 0]).collect::<Vec<_>>());
+                ev.n = 0;
+            }
+            "par_drain" | "into_par_iter" => {
+                use rayon::prelude::*;
+                let pool = rayon::ThreadPoolBuilder::new().num_threads(ev.j.max(1) as usize).build().unwrap();
+                let into = ev.op == "into_par_iter";
+                let mut owned = if into { self.tabs[t - 1].take() } else { None };
+                let pl = owned.as_ref().map(|m| m.hasher().pl).unwrap_or(0);
+                let mut kept: Vec<K> = vec![];
+                if ev.n == 0 {
+                    kept = if into {
+                        let m = owned.take().unwrap();
+                        pool.install(|| m.into_par_iter().collect::<Vec<K>>())
+                    } else {
+                        let m = self.tabs[t - 1].as_mut().unwrap();
+                        pool.install(|| m.par_drain().collect::<Vec<K>>())
+                    };
+                    ev.y = kept.iter().map(|x| vec![x.class() as i64, x.id() as i64, 0, 0]).collect();
+                    ev.r = vec![kept.len() as i64];
+                } else {
+                    let found = if into {
+                        let m = owned.take().unwrap();
+                        pool.install(|| m.into_par_iter().find_any(|x| x.class() == k))
+                    } else {
+                        let m = self.tabs[t - 1].as_mut().unwrap();
+                        pool.install(|| m.par_drain().find_any(|x| x.class() == k))
+                    };
+                    ev.r = vec![found.as_ref().map_or(-1, |x| x.id() as i64)];
+                    ev.y = found.iter().map(|x| vec![x.class() as i64, x.id() as i64, 0, 0]).collect();
+                    kept.extend(found);
+                }
+                self.keep(kept);
+                if into {
+                    self.tabs[t - 1] = Some(HashSet::with_hasher_in(PlanBH { pl }, CheckingAlloc));
+                }
+            }
+            "par_union" | "par_intersection" | "par_difference" | "par_symmetric_difference" => {
+                use rayon::prelude::*;
+                let a = self.tabs[t - 1].as_ref().unwrap();
+                let b = self.tabs[ev.u - 1].as_ref().unwrap();
+                let pool = rayon::ThreadPoolBuilder::new().num_threads(ev.j.max(1) as usize).build().unwrap();
+                let f = |x: &K| vec![x.class() as i64, x.id() as i64];
+                ev.y = match ev.op.as_str() {
+                    "par_union" => pool.install(|| a.par_union(b).map(f).collect::<Vec<_>>()),
+                    "par_intersection" => pool.install(|| a.par_intersection(b).map(f).collect::<Vec<_>>()),
+                    "par_difference" => pool.install(|| a.par_difference(b).map(f).collect::<Vec<_>>()),
+                    _ => pool.install(|| a.par_symmetric_difference(b).map(f).collect::<Vec<_>>()),
+                };
+            }
+            "par_is_subset" | "par_is_superset" | "par_is_disjoint" | "par_eq" => {
+                let a = self.tabs[t - 1].as_ref().unwrap();
+                let b = self.tabs[ev.u - 1].as_ref().unwrap();
+                let pool = rayon::ThreadPoolBuilder::new().num_threads(ev.j.max(1) as usize).build().unwrap();
+                ev.r = vec![pool.install(|| match ev.op.as_str() {
+                    "par_is_subset" => a.par_is_subset(b),
+                    "par_is_superset" => a.par_is_superset(b),
+                    "par_is_disjoint" => a.par_is_disjoint(b),
+                    _ => a.par_eq(b),
+                }) as i64];
+            }
             other => panic!("unknown set op {}", other),
         }
     }
